@@ -74,8 +74,15 @@ def parse_event(line, root):
 
     def fd(a):
         m = FDP.match(a)
+        if m:
+            ev.setdefault("fds", []).append(int(m.group(1)))
         return rel(m.group(2), root) if m else a
 
+    if call in ("open", "create", "opentmp", "opendir"):
+        try:
+            ev["newfd"] = int(ret)
+        except ValueError:
+            ev["newfd"] = -1
     if call in ("open", "create", "opentmp"):
         ev["path"] = rel(args[0], root)
         ev["flags"] = args[1]
